@@ -84,6 +84,8 @@ func genCfg(r *rand.Rand, documented bool) acCfg {
 			s.Nb, s.kind = 0, nil
 		} else if bad(10) {
 			s.Nb, s.kind = 2, []string{"file", "cmd"}
+		} else if bad(14) {
+			s.Nb, s.kind = 3, []string{"file", "cmd", "hwmon"} // all three backends at once
 		}
 		if len(s.kind) == 1 && s.kind[0] == "hwmon" && bad(6) {
 			s.HwOk = false
@@ -111,6 +113,10 @@ func genCfg(r *rand.Rand, documented bool) acCfg {
 		case bad(14):
 			cu.Nb, cu.Kind, cu.extra = 2, "", "two"
 			cu.Sensor = c.Sensors[0].ID
+		case bad(18) && i > 0:
+			cu.Nb, cu.Kind, cu.extra = 3, "", "three" // linear + pid + function in one entry
+			cu.Sensor = c.Sensors[0].ID
+			cu.Fn, cu.Members = "maximum", []string{"c1"}
 		case k < 4 || i == 0:
 			cu.Kind, cu.Sensor = "linear", sensorRef()
 			if r.Intn(2) == 0 {
@@ -186,6 +192,8 @@ func genCfg(r *rand.Rand, documented bool) acCfg {
 			f.Nb, f.kinds = 0, nil
 		} else if bad(12) {
 			f.Nb, f.kinds = 2, []string{"file", "hwmon"}
+		} else if bad(16) {
+			f.Nb, f.kinds = 3, []string{"file", "hwmon", "cmd"}
 		}
 		f.alg = pick(r, "absent", "direct", "pid", "directmap", "directlimit", "pidmap", "controlLoop")
 		if bad(8) {
@@ -331,7 +339,17 @@ func renderYaml(c acCfg, dir string) string {
 			}
 			fmt.Fprintf(&b, "    pid:\n      sensor: %s\n      setPoint: 60\n      p: %s\n      i: %s\n      d: %s\n", cu.Sensor, p, i, d)
 		}
+		fnBlock := func() {
+			fmt.Fprintf(&b, "    function:\n      type: %s\n      curves:\n", cu.Fn)
+			for _, m := range cu.Members {
+				fmt.Fprintf(&b, "        - %s\n", m)
+			}
+		}
 		switch {
+		case cu.extra == "three":
+			lin()
+			pid()
+			fnBlock()
 		case cu.extra == "two":
 			lin()
 			pid()
